@@ -84,6 +84,7 @@ class Rule:
         self.optional_dirs: T.List[T.Tuple[str, str]] = []  # directories that the docs neither demand nor forbid (see _r_dotdot)
         self.may_reject = False                 # `meson setup` may refuse the rule (counted, nothing is compared then)
         self.key_class: T.Optional[str] = None  # input class that names the violation keys of the projects holding this rule
+        self.key_whole = False                  # the class is the whole key (no symptom): used where one defect derails the whole install
 
 
 def _modekw(mode: str) -> str:
@@ -450,9 +451,9 @@ def _r_subdir_name(shape: str, strip: str, excl: str, dirkind: str):
         nest = nm(s, 'nest') if shape.startswith('nested') else ''
         top = (nest + '/' if nest else '') + name       # the directory that is installed, relative to the source root
         a, x, b, e, c = nm(s, 'na', '.txt'), nm(s, 'nx', '.sh'), nm(s, 'nb', '.txt'), nm(s, 'ne', '.txt'), nm(s, 'nc', '.txt')
-        dp = nm(s, 'deep')
-        tree_files = [a, x, 'sub/' + b, 'sub/' + e, 'sub/' + dp + '/' + c, last + '/' + a]
-        tree_dirs = ['sub', 'sub/' + dp, last]
+        dp, kp = nm(s, 'deep'), nm(s, 'keep')
+        tree_files = [a, x, 'sub/' + b, 'sub/' + e, 'sub/' + dp + '/' + c, 'sub/' + kp + '/' + c, last + '/' + a]
+        tree_dirs = ['sub', 'sub/' + dp, 'sub/' + kp, last]
         for rel in tree_files:
             r.files[top + '/' + rel] = ('%s of %s\n' % (rel.replace('/', ':'), shape), 0o750 if rel == x else 0o640)
         for i in range(1, len(comps)):
@@ -463,16 +464,16 @@ def _r_subdir_name(shape: str, strip: str, excl: str, dirkind: str):
         if strip != 'unset':
             kw += ', strip_directory: ' + strip
         if excl == 'lists':
-            # relative to the installed directory: sub/<b> and <last>/<a> are files of the tree; <e> and <deep> exist only further
-            # down, and the name of the call itself prefixed to <a> leads nowhere: these exclude nothing
+            # relative to the installed directory: sub/<b>, <last>/<a> and sub/<deep> are part of the tree; <e> and <keep> exist only
+            # further down, and the name of the call itself (prefixed to <a>) leads nowhere: these exclude nothing
             xf = ['sub/' + b, e, last + '/' + a]
-            xd = ['sub/' + dp, dp]
+            xd = ['sub/' + dp, kp]
             if len(comps) > 1:
                 xf.append(name + '/' + a)
                 xd.append(name)
             kw += ', exclude_files: [%s], exclude_directories: [%s]' % (', '.join(q(v) for v in xf), ', '.join(q(v) for v in xd))
-            tree_files = [a, x, 'sub/' + e]
-            tree_dirs = ['sub', last]
+            tree_files = [a, x, 'sub/' + e, 'sub/' + kp + '/' + c]
+            tree_dirs = ['sub', 'sub/' + kp, last]
         call = 'install_subdir(%s, install_dir: %s%s%s)' % (q(declared), q(d), kw, _modekw(m))
         if nest:
             r.snippet = 'subdir(%s)' % q(nest)
@@ -529,6 +530,7 @@ def _r_data_link(follow: str, rename: str, tstate: str):
             r.entries.append(Entry(w, 'file', r, src=('src', tg), mode=MODE_BITS[m]))
         if tstate == 'target-gone':
             r.gone_after_setup.append(tg)
+            r.key_whole = rename == 'renamed'
         r.plan.append(('data', ('src', ln), w, None))
         return r
     return build
@@ -559,6 +561,7 @@ def _r_dotdot(kind: str, spelling: str):
         r.key_class = 'install_dir-dotdot:%s' % spelling
         r.may_reject = True
         r.has_mode = False
+        r.key_whole = spelling.endswith('above-root')
         depth = len([x for x in prefix.split('/') if x])
         if spelling == 'rel-inside':
             d = 'share/' + nm(s, 'dqdir') + '/../' + nm(s, 'drdir')
@@ -841,6 +844,7 @@ class Project:
         self.optional_dirs = [d for r in rules for d in r.optional_dirs]
         self.may_reject = any(r.may_reject for r in rules)
         self.key_class = next((r.key_class for r in rules if r.key_class), None)
+        self.key_whole = any(r.key_whole for r in rules)
         lines = ["project('proj'%s)" % (", 'c'" if any(r.rid in ('exe', 'shlib', 'stlib') for r in rules) else '')]
         for r in rules:
             if r.snippet:
